@@ -117,6 +117,9 @@ func (x *Exec) evalCall(st *State, e *ast.CallExpr) []Val {
 			before = (&SEnv{x: x, st: st, pkg: x.fn.pkgPath()}).eval(&SX{Op: "id", Name: "gStop", Pos: "engine"})
 		}
 		res := x.applyContract(st, e, key, spec.Clauses, names, args, sig.Results(), info.TypeOf(e))
+		if ev := x.findCallEvent(key); ev != nil {
+			x.afterEffects(st, e, ev, args, res)
+		}
 		if pollsStop {
 			after := (&SEnv{x: x, st: st, pkg: x.fn.pkgPath()}).eval(&SX{Op: "id", Name: "gStop", Pos: "engine"})
 			st.polls = append(st.polls, poll{fmt.Sprintf("call[%d:%s]", x.ordinal(e), lastName(key)), and(after.T, not(before.T))})
@@ -148,7 +151,21 @@ func (x *Exec) evalCall(st *State, e *ast.CallExpr) []Val {
 			}
 			args = append(args, v)
 		}
-		return x.applyContract(st, e, "functype "+k, fts.Clauses, fts.Params, args, sig.Results(), info.TypeOf(e))
+		fev := x.findCallEvent("functype " + k)
+		if fev != nil {
+			binds := map[string]Val{}
+			for i, v := range fev.Vars {
+				if i < len(args) {
+					binds[v] = args[i]
+				}
+			}
+			x.runEvent(st, e, fev, binds)
+		}
+		res := x.applyContract(st, e, "functype "+k, fts.Clauses, fts.Params, args, sig.Results(), info.TypeOf(e))
+		if fev != nil {
+			x.afterEffects(st, e, fev, args, res)
+		}
+		return res
 	}
 	x.unsupported(e, "call "+types.ExprString(e.Fun))
 	return []Val{{T: "0", S: "Int"}}
@@ -168,6 +185,25 @@ func (x *Exec) findCallEvent(key string) *EventSpec {
 		}
 	}
 	return nil
+}
+
+// afterEffects applies the effect-after clauses of a call event (ghost recording of a call
+// together with its results), evaluated in the state after the call.
+func (x *Exec) afterEffects(st *State, site ast.Node, ev *EventSpec, args []Val, res []Val) {
+	binds := map[string]Val{}
+	for i, v := range ev.Vars {
+		if i < len(args) {
+			binds[v] = args[i]
+		}
+	}
+	for i, r := range res {
+		binds[fmt.Sprintf("result%d", i)] = r
+	}
+	if len(res) == 1 {
+		binds["result"] = res[0]
+	}
+	env := &SEnv{x: x, st: st, binds: binds, pkg: x.fn.pkgPath(), own: true, pos: site.Pos()}
+	x.applyEffects(st, env, ev, "effect-after")
 }
 
 func ifaceKey(t types.Type, method string) string {
@@ -374,6 +410,18 @@ func (x *Exec) havocTarget(st *State, pre *SEnv, t *SX) {
 		x.arrComp(pre.st, es)
 		x.arrComp(st, es)
 		havocAt("arr_"+sortTag(es), app("sl_arr", s.T))
+	case t.Op == "call" && t.Name == "anycontent":
+		// any map with the value sort named by the argument may change
+		vs := sortOfName(t.Args[0])
+		if vs == "" {
+			m := pre.eval(t.Args[0])
+			_, _, vs, _ = x.mapParts(pre.st, m)
+		}
+		dom, val := x.mapComps(st, vs)
+		st.heap["mdom_"+sortTag(vs)] = Val{T: x.freshConst("hv_mdom", dom.S), S: dom.S}
+		st.heap["mval_"+sortTag(vs)] = Val{T: x.freshConst("hv_mval", val.S), S: val.S}
+		st.wrote("mdom_"+sortTag(vs), "*", "true")
+		st.wrote("mval_"+sortTag(vs), "*", "true")
 	case t.Op == "call" && t.Name == "anyelems":
 		// any backing array with the element sort of the argument may change
 		es := sortOfName(t.Args[0])
@@ -677,13 +725,18 @@ func (x *Exec) runEvent(st *State, site ast.Node, ev *EventSpec, binds map[strin
 			}
 		}
 	}
+	x.applyEffects(st, env, ev, "effect")
+}
+
+// applyEffects performs the simultaneous ghost assignments of the given clause kind.
+func (x *Exec) applyEffects(st *State, env *SEnv, ev *EventSpec, kind string) {
 	type upd struct {
 		name string
 		v    Val
 	}
 	var ups []upd
 	for _, c := range ev.Clauses {
-		if c.Kind != "effect" || !c.relevant(x.prop) {
+		if c.Kind != kind || !c.relevant(x.prop) {
 			continue
 		}
 		g := env.ghostDecl(c.Target)
